@@ -50,6 +50,7 @@ type treeObs struct {
 	Patch   *patchDoc
 	Exp     int64 // seconds, -1 unknown
 	Applied bool  // own applier: old + ops == new
+	Served  bool  // observed through the /patch handler
 	AppErr  string
 	OldDoc  *etree.Document
 	NewDoc  *etree.Document
@@ -333,8 +334,8 @@ func treeTerm(id int, o treeObs) string {
 		mpdID, orig, nw = cs(o.Patch.MpdID), cs(o.Patch.Orig), cs(o.Patch.New)
 		ops = coqOps(o.Patch.Ops)
 	}
-	return fmt.Sprintf("CTree %d\n  %s\n  %s\n  (mkTO %d %s %s %s\n   %s\n   %s %s)", id, coqElem(o.OldDoc.Root()), coqElem(o.NewDoc.Root()),
-		o.Status, mpdID, orig, nw, ops, lib.Zs(o.Exp), lib.Cbool(o.Applied))
+	return fmt.Sprintf("CTree %d\n  %s\n  %s\n  (mkTO %d %s %s %s\n   %s\n   %s %s %s)", id, coqElem(o.OldDoc.Root()), coqElem(o.NewDoc.Root()),
+		o.Status, mpdID, orig, nw, ops, lib.Zs(o.Exp), lib.Cbool(o.Applied), lib.Cbool(o.Served))
 }
 
 // ---------------------------------------------------------------- Myers
@@ -558,7 +559,7 @@ func runL1(c *lib.Ctx, ls *lib.Livesim, id string, in c11in) (o l1obs) {
 			fail(key, "patch applied to MPD(t1) does not give MPD(t2): "+why+regenWhy)
 		}
 		if dOld != nil {
-			o.Tree = treeObs{Status: 200, Patch: p, Exp: -1, OldDoc: dOld, NewDoc: d2}
+			o.Tree = treeObs{Status: 200, Patch: p, Exp: -1, OldDoc: dOld, NewDoc: d2, Served: true}
 			if ex, err := http.ParseTime(rp.Header.Get("Expires")); err == nil {
 				o.Tree.Exp = ex.Unix()
 			}
@@ -575,7 +576,7 @@ func runL1(c *lib.Ctx, ls *lib.Livesim, id string, in c11in) (o l1obs) {
 			fail(regen+key, fmt.Sprintf("answer 425 but MPD(t2) differs from MPD(t1): %s", firstDiff(canonical(d1.Root()), canonical(d2.Root())))+regenWhy)
 		}
 		if dOld != nil {
-			o.Tree = treeObs{Status: 425, Exp: -1, OldDoc: dOld, NewDoc: d2}
+			o.Tree = treeObs{Status: 425, Exp: -1, OldDoc: dOld, NewDoc: d2, Served: true}
 			o.HasTree = true
 		}
 	case http.StatusGone:
@@ -583,7 +584,7 @@ func runL1(c *lib.Ctx, ls *lib.Livesim, id string, in c11in) (o l1obs) {
 			fail(regen+"410-within-ttl", fmt.Sprintf("answer 410 but publishTime moved only %v (ttl %v)", dPT, ttl)+regenWhy)
 		}
 		if dOld != nil {
-			o.Tree = treeObs{Status: 410, Exp: -1, OldDoc: dOld, NewDoc: d2}
+			o.Tree = treeObs{Status: 410, Exp: -1, OldDoc: dOld, NewDoc: d2, Served: true}
 			o.HasTree = true
 		}
 	default:
@@ -599,7 +600,7 @@ func runL1(c *lib.Ctx, ls *lib.Livesim, id string, in c11in) (o l1obs) {
 				key = "error-500"
 				what = d.Err
 			}
-			o.Tree = treeObs{Status: d.Status, Exp: -1, OldDoc: dOld, NewDoc: d2}
+			o.Tree = treeObs{Status: d.Status, Exp: -1, OldDoc: dOld, NewDoc: d2, Served: true}
 			o.HasTree = d.Status == 599 || d.Status == 500
 		}
 		if in.T2-in.T1 <= int64(o.TTL)*1000 || dPT <= ttl {
@@ -713,6 +714,21 @@ func runC11(c *lib.Ctx) error {
 				continue
 			}
 			c.Count(fmt.Sprintf("l1:status-%d", o.Status))
+			if o.Status == 200 && o.Tree.Patch != nil {
+				seen := map[string]bool{}
+				for _, op := range o.Tree.Patch.Ops {
+					cl := op.Kind + ":" + op.Steps[len(op.Steps)-1].Tag
+					if op.Attr != "" {
+						cl = op.Kind + ":" + op.Steps[len(op.Steps)-1].Tag + "/@" + op.Attr
+					} else if op.Kind == "add" && op.Payload != nil {
+						cl = "add:" + op.Payload.Tag
+					}
+					if !seen[cl] {
+						seen[cl] = true
+						c.Count("l1:change:" + cl)
+					}
+				}
+			}
 			if o.Status == 200 {
 				distinct[fmt.Sprint(u, o.PT1, o.PT2)] = true
 				c.Sample(map[string]any{"input": in, "status": o.Status, "operations": len(o.Tree.Patch.Ops), "publishTime_t1": o.PT1, "publishTime_t2": o.PT2})
